@@ -39,12 +39,7 @@ def status_mon(run):
 
 def poll_q(run):
     """poll; if nothing was offered and nothing is in flight this is a quiescent point (C03)"""
-    n = run.poll()
-    if n == 0 and not run.inflight:
-        sm = status_mon(run)
-        if sm is not None:
-            sm.quiescent(run, dict(post=run.last))
-    return n
+    return run.poll()
 
 
 def run_free(run, policy, max_steps=400, hook=None, start=True):
